@@ -14,7 +14,7 @@
    step of the model.  wf k says that k holds what Go values of these types can hold.
    No axioms. *)
 From Coq Require Import ZArith List.
-From GV Require Import Marshal.Model Marshal.ModelRefactor Marshal.Proofs Marshal.RefactorProofs Marshal.BudgetProofs.
+From GV Require Import Marshal.Model Marshal.ModelRefactor Marshal.Proofs Marshal.RefactorProofs Marshal.BudgetProofs Marshal.ModelAlloc Marshal.AllocProofs.
 Import ListNotations.
 Open Scope Z_scope.
 
@@ -93,6 +93,30 @@ Theorem C13_unmarshal_used_is_bytes_read :
   budget - b' = zlen inp - 3 - zlen rest.
 Proof. exact unmarshal_used_is_bytes_read. Qed.
 Print Assumptions C13_unmarshal_used_is_bytes_read.
+
+(* "loading code charges before allocating" (C06 clause): with the allocations of the reader
+   accumulated (Marshal/ModelAlloc.v), for ANY byte string and ANY non-zero budget, on EVERY path —
+   value, error, budget stop — the bytes allocated by one UnmarshalConst call are at most
+   48 * (budget spent) + 163. *)
+Theorem C13_unmarshal_alloc_bounded :
+  forall lim budget inp, 0 < budget ->
+  match unmarshal lim budget inp with
+  | UOk _ _ b' | UErr _ b' => al_unmarshal lim budget inp <= 48 * (budget - b') + 163
+  | UBudget => al_unmarshal lim budget inp <= 48 * budget + 163
+  | UPanic | UFatal _ | UOutOfFuel => True
+  end.
+Proof. exact unmarshal_alloc_bounded. Qed.
+Print Assumptions C13_unmarshal_alloc_bounded.
+
+(* the same in terms of the `used` UnmarshalConst returns (the excluded outcomes cannot happen) *)
+Theorem C13_go_unmarshal_alloc_bounded :
+  forall lim budget inp, 0 < budget -> 48 * zlen inp + 66048 <= lim <= maxAlloc ->
+  match go_unmarshal lim budget inp with
+  | GVal _ used | GErr _ used | GNil used => al_unmarshal lim budget inp <= 48 * used + 163
+  | GCrash _ | GOutOfFuel => False
+  end.
+Proof. exact go_unmarshal_alloc_bounded. Qed.
+Print Assumptions C13_go_unmarshal_alloc_bounded.
 
 (* the former witnesses are ordinary errors now (replayed on Go from corpus/C13 on every run) *)
 Theorem C13_former_witnesses :
